@@ -1,10 +1,12 @@
 """E8/E3 for the ACL: constants and bounds of AccessControlList, read from the source with `ast`."""
 import ast
+import re
 
 GEN_NAME = "Acl"
-EXTRA_GEN = {"AclMatch": "emit_match"}
+EXTRA_GEN = {"AclMatch": "emit_match", "AclState": "emit_state"}
 
 from harness.extract.util import class_def, find_method, parse, src_of
+from harness.lib.core import SRC
 
 
 def _bound_of(fn: ast.FunctionDef) -> str:
@@ -110,3 +112,466 @@ structure FrameView where
 {pfc}
 end Primaite.Gen.AclMatch
 """
+
+
+# =============================================================================================== round 3: AclState
+# Everything the list carries besides its rules, and who reads it: `__init__`, `is_permitted` (translated into a Lean
+# function), `describe_state` / `show` / `num_rules` readers, the keyword plumbing of `add_rule`, the positional layout
+# of the request handler and of the four agent actions, the seven `from_config` blocks, the firewall's default
+# factories, `Router._set_default_acl`, `Router.subject_to_acl`, `Frame.__init__` / `Frame.is_arp`.
+ROUTER = "simulator/network/hardware/nodes/network/router.py"
+FIREWALL = "simulator/network/hardware/nodes/network/firewall.py"
+FRAME = "simulator/network/transmission/data_link_layer.py"
+ACTIONS = "game/agent/actions/acl.py"
+
+
+class Shape(ValueError):
+    pass
+
+
+def _need(cond: bool, what: str):
+    if not cond:
+        raise Shape(what)
+
+
+def _body(fn: ast.FunctionDef):
+    return [b for b in fn.body if not (isinstance(b, ast.Expr) and isinstance(b.value, ast.Constant) and isinstance(b.value.value, str))]
+
+
+def _u(n: ast.AST) -> str:
+    return ast.unparse(n)
+
+
+def _lean_str(x: str) -> str:
+    return '"' + x.replace("\\", "\\\\").replace('"', '\\"') + '"'
+
+
+def _lean_list(items, f=lambda x: x) -> str:
+    return "[" + ", ".join(f(i) for i in items) + "]"
+
+
+def _is_permitted_lean(acl: ast.ClassDef) -> str:
+    """`AccessControlList.is_permitted`, translated: the free expressions (loop iterable, the three tests, the
+    fall-through verdict and decider, the increment) come from the source; the skeleton (a `for` with one `continue`
+    guard, one call of `permit_frame_check`, one `break` guard; then one fall-through `if`; then one increment; then the
+    return of the two locals) is checked statement by statement and anything else is rejected."""
+    from harness.extract.pyexpr import expr, truthy
+    fn = find_method(acl, "is_permitted")
+    _need([a.arg for a in fn.args.args] == ["self", "frame"], "is_permitted(self, frame)")
+    b = _body(fn)
+    _need(len(b) == 6, f"is_permitted has {len(b)} statements, expected 6")
+    init_p, init_r, loop, fall, bump, ret = b
+    _need(isinstance(init_p, ast.Assign) and _u(init_p) == "permitted = False", "permitted = False")
+    _need(isinstance(init_r, (ast.Assign, ast.AnnAssign)) and _u(init_r.targets[0] if isinstance(init_r, ast.Assign) else init_r.target) == "rule"
+          and _u(init_r.value) == "None", "rule = None")
+    _need(isinstance(loop, ast.For) and isinstance(loop.target, ast.Name) and not loop.orelse, "for <var> in <iter>:")
+    var = loop.target.id
+    iter_env = {"self._acl": "a.core.rules", "self.acl": "a.core.rules"}
+    _need(_u(loop.iter) in iter_env, f"loop iterates {_u(loop.iter)!r}, not the slots in position order")
+    it = iter_env[_u(loop.iter)]
+    lb = loop.body
+    _need(len(lb) == 3, "loop body of three statements")
+    skip, call, hit = lb
+    env_loop = {var: ("slot_", "opt"), "rule_match": ("rule_match", "bool")}
+    _need(isinstance(skip, ast.If) and not skip.orelse and len(skip.body) == 1 and isinstance(skip.body[0], ast.Continue),
+          "if <test>: continue")
+    skip_test = truthy(skip.test, env_loop)
+    _need(isinstance(call, ast.Assign) and _u(call.targets[0]) == "(permitted, rule_match)"
+          and _u(call.value) == f"{var}.permit_frame_check(frame)", "permitted, rule_match = <var>.permit_frame_check(frame)")
+    _need(isinstance(hit, ast.If) and not hit.orelse and len(hit.body) == 2 and _u(hit.body[0]) == f"rule = {var}"
+          and isinstance(hit.body[1], ast.Break), "if <test>: rule = <var>; break")
+    hit_test = truthy(hit.test, env_loop)
+    env_after = {"rule": ("rule_1", "opt"), "self.implicit_action": ("a.core.implicit", "action"),
+                 "self.implicit_rule.action": ("a.ruleAction", "action"),
+                 "ACLAction.PERMIT": ("Primaite.Acl.Action.permit", "action"), "ACLAction.DENY": ("Primaite.Acl.Action.deny", "action"),
+                 "True": ("true", "bool"), "False": ("false", "bool")}
+    _need(isinstance(fall, ast.If) and not fall.orelse and len(fall.body) == 2, "if <test>: permitted = …; rule = …")
+    fall_test = truthy(fall.test, env_after)
+    fp, fr = fall.body
+    _need(isinstance(fp, ast.Assign) and _u(fp.targets[0]) == "permitted", "fall-through assigns permitted")
+    fall_permitted = expr(fp.value, env_after)[0]
+    _need(isinstance(fr, ast.Assign) and _u(fr.targets[0]) == "rule" and _u(fr.value) == "self.implicit_rule",
+          f"fall-through decider is {_u(fr.value) if isinstance(fr, ast.Assign) else '?'}, not self.implicit_rule")
+    _need(isinstance(bump, ast.AugAssign) and isinstance(bump.op, ast.Add) and _u(bump.target) == "rule.match_count"
+          and isinstance(bump.value, ast.Constant) and isinstance(bump.value.value, int), "rule.match_count += <int>")
+    inc = bump.value.value
+    _need(isinstance(ret, ast.Return) and _u(ret.value) == "(permitted, rule)", "return permitted, rule")
+    return f"""/-- the `for` loop of `is_permitted`; loop state = the locals `(permitted, rule)` -/
+def scan (f : Primaite.Gen.AclMatch.FrameView) : List (Option Rule) → Nat → Bool × Option Decider → Bool × Option Decider
+  | [], _, st => st
+  | slot_ :: rest, i, (permitted, rule) =>
+    if {skip_test} then scan f rest (i + 1) (permitted, rule)  -- continue
+    else
+      match slot_ with
+      | none => scan f rest (i + 1) (permitted, rule)
+      | some r_ =>
+        let (permitted', rule_match) := Primaite.Gen.AclMatch.permitFrameCheck r_ f
+        if {hit_test} then (permitted', some (Decider.rule i))  -- rule = {var}; break
+        else scan f rest (i + 1) (permitted', rule)
+
+/-- `rule.match_count += {inc}` on whichever object `rule` names -/
+def bumpRef (a : AclObj) : Decider → AclObj
+  | .rule i => {{ a with core := {{ a.core with rules := a.core.rules.modify i (fun o => o.map (fun r => {{ r with hits := r.hits + {inc} }})) }} }}
+  | .implicit => {{ a with core := {{ a.core with implicitHits := a.core.implicitHits + {inc} }} }}
+
+/-- `AccessControlList.is_permitted`, translated (loop over `{_u(loop.iter)}`) -/
+def isPermitted (a : AclObj) (f : Primaite.Gen.AclMatch.FrameView) : Bool × Decider × AclObj :=
+  let st := scan f {it} 0 (false, none)
+  let permitted_1 := st.1
+  let rule_1 := st.2
+  if {fall_test} then
+    let permitted_2 := {fall_permitted}
+    let rule_2 := Decider.implicit  -- {_u(fr.value)}
+    (permitted_2, rule_2, bumpRef a rule_2)
+  else
+    match rule_1 with
+    | some rule_2 => (permitted_1, rule_2, bumpRef a rule_2)
+    | none => (permitted_1, Decider.implicit, a)
+def fallThroughReads : String := {_lean_str(_u(fp.value))}
+"""
+
+
+def _ctor_lean(acl: ast.ClassDef) -> str:
+    init = find_method(acl, "__init__")
+    b = _body(init)
+    _need(len(b) == 4, "__init__ of four statements")
+    dflt, irule, sup, slots = b
+    _need(isinstance(dflt, ast.If) and not dflt.orelse and _u(dflt.test) == "not kwargs.get('implicit_action')" and len(dflt.body) == 1
+          and isinstance(dflt.body[0], ast.Assign) and _u(dflt.body[0].targets[0]) == "kwargs['implicit_action']"
+          and _u(dflt.body[0].value) in ("ACLAction.DENY", "ACLAction.PERMIT"), "default of implicit_action")
+    default = "deny" if _u(dflt.body[0].value) == "ACLAction.DENY" else "permit"
+    _need(isinstance(irule, ast.Assign) and _u(irule.targets[0]) == "kwargs['implicit_rule']" and isinstance(irule.value, ast.Call)
+          and _u(irule.value.func) == "ACLRule" and not irule.value.args, "kwargs['implicit_rule'] = ACLRule(…)")
+    kws = {k.arg: _u(k.value) for k in irule.value.keywords}
+    _need(_u(sup) == "super().__init__(**kwargs)", "super().__init__(**kwargs)")
+    _need(isinstance(slots, ast.Assign) and _u(slots.targets[0]) == "self._acl" and isinstance(slots.value, ast.BinOp)
+          and isinstance(slots.value.op, ast.Mult) and _u(slots.value.left) == "[None]", "self._acl = [None] * n")
+    n = slots.value.right
+    _need(isinstance(n, ast.BinOp) and isinstance(n.op, ast.Sub) and _u(n.left) == "self.max_acl_rules" and isinstance(n.right, ast.Constant)
+          and isinstance(n.right.value, int), "slot count max_acl_rules - k")
+    max_rules = None
+    for st in acl.body:
+        if isinstance(st, ast.AnnAssign) and _u(st.target) == "max_acl_rules":
+            max_rules = st.value.value
+    _need(isinstance(max_rules, int), "max_acl_rules default literal")
+    return f"""/-- `__init__`: `if not kwargs.get("implicit_action"): kwargs["implicit_action"] = …` -/
+def ctorDefaultImplicit : Action := .{default}
+/-- keyword arguments of the `ACLRule(…)` built as `implicit_rule` -/
+def ctorImplicitRuleKwargs : List (String × String) := {_lean_list(sorted(kws.items()), lambda kv: f"({_lean_str(kv[0])}, {_lean_str(kv[1])})")}
+/-- `self._acl = [None] * (self.max_acl_rules - {n.right.value})` -/
+def ctorSlots (maxRules : Int) : Nat := (maxRules - {n.right.value}).toNat
+def classMaxAclRules : Int := {max_rules}
+"""
+
+
+def _readers_lean(acl: ast.ClassDef) -> str:
+    ds = find_method(acl, "describe_state")
+    reads = []
+    for st in _body(ds):
+        if isinstance(st, ast.Assign) and isinstance(st.targets[0], ast.Subscript) and _u(st.targets[0].value) == "state":
+            key = st.targets[0].slice
+            _need(isinstance(key, ast.Constant) and isinstance(key.value, str), "state[<str>] = …")
+            reads.append((key.value, _u(st.value)))
+        else:
+            _need(_u(st) in ("state = super().describe_state()", "return state"), f"describe_state statement {_u(st)[:60]!r}")
+    show = find_method(acl, "show")
+    loops = [n for n in ast.walk(show) if isinstance(n, ast.For)]
+    _need(len(loops) == 1, "show() has one loop")
+    nr = find_method(acl, "num_rules")
+    nb = _body(nr)
+    _need(len(nb) == 1 and isinstance(nb[0], ast.Return), "num_rules is one return")
+    return f"""/-- `describe_state()`: key ↦ the expression it stores -/
+def describeReads : List (String × String) := {_lean_list(reads, lambda kv: f"({_lean_str(kv[0])}, {_lean_str(kv[1])})")}
+/-- `show()` iterates -/
+def showIterates : String := {_lean_str(_u(loops[0].iter))}
+def numRulesIs : String := {_lean_str(_u(nb[0].value))}
+"""
+
+
+def _add_rule_plumbing(acl: ast.ClassDef) -> str:
+    add = find_method(acl, "add_rule")
+    params = [a.arg for a in add.args.args if a.arg != "self"]
+    stores = [n for n in ast.walk(add) if isinstance(n, ast.Assign) and _u(n.targets[0]) == "self._acl[position]"]
+    _need(len(stores) == 1 and isinstance(stores[0].value, ast.Call) and _u(stores[0].value.func) == "ACLRule" and not stores[0].value.args,
+          "one `self._acl[position] = ACLRule(…)` in add_rule")
+    kws = [(k.arg, _u(k.value)) for k in stores[0].value.keywords]
+    rem = find_method(acl, "remove_rule")
+    rstores = [n for n in ast.walk(rem) if isinstance(n, ast.Assign) and _u(n.targets[0]) == "self._acl[position]"]
+    _need(len(rstores) == 1 and _u(rstores[0].value) == "None", "remove_rule stores None at the position")
+    # request handler
+    irm = find_method(acl, "_init_request_manager")
+    handler = next((n for n in ast.walk(irm) if isinstance(n, ast.FunctionDef) and n.name == "_add_rule_action"), None)
+    _need(handler is not None, "_add_rule_action")
+    calls = [n for n in ast.walk(handler) if isinstance(n, ast.Call) and _u(n.func) == "self.add_rule"]
+    _need(len(calls) == 1 and not calls[0].args, "one keyword call of self.add_rule in the request handler")
+    layout = []
+    for k in calls[0].keywords:
+        v = k.value
+        sentinel = "-"
+        if isinstance(v, ast.IfExp):
+            t = v.test
+            _need(_u(v.body) == "None" and isinstance(t, ast.Compare) and len(t.ops) == 1 and isinstance(t.ops[0], ast.Eq)
+                  and isinstance(t.comparators[0], ast.Constant), f"sentinel test of {k.arg}")
+            sentinel = t.comparators[0].value
+            idx_a = t.left
+            v = v.orelse
+        else:
+            idx_a = None
+        subs = [n for n in ast.walk(v) if isinstance(n, ast.Subscript) and _u(n.value) == "request"]
+        _need(len(subs) == 1 and isinstance(subs[0].slice, ast.Constant), f"{k.arg} reads one request[i]")
+        idx = subs[0].slice.value
+        if idx_a is not None:
+            _need(_u(idx_a) == f"request[{idx}]", f"{k.arg}: sentinel tested on another index than the value")
+        wrap = _u(v).replace(f"request[{idx}]", "·")
+        layout.append((k.arg, idx, sentinel, wrap))
+    rh = next((n for n in ast.walk(irm) if isinstance(n, ast.FunctionDef) and n.name == "_remove_rule_action"), None)
+    _need(rh is not None, "_remove_rule_action")
+    rcalls = [n for n in ast.walk(rh) if isinstance(n, ast.Call) and _u(n.func) == "self.remove_rule"]
+    _need(len(rcalls) == 1 and _u(rcalls[0]) == "self.remove_rule(int(request[0]))", "remove handler calls remove_rule(int(request[0]))")
+    names = {}
+    for n in ast.walk(irm):
+        if isinstance(n, ast.Call) and _u(n.func) == "rm.add_request":
+            names[_u(n.args[0]).strip("'")] = _u(n.args[1])
+    _need(names.get("add_rule") == "RequestType(func=_add_rule_action)" and names.get("remove_rule") == "RequestType(func=_remove_rule_action)",
+          "request names add_rule / remove_rule")
+    return f"""/-- parameters of `add_rule` -/
+def addRuleParams : List String := {_lean_list(params, _lean_str)}
+/-- `ACLRule(field=expr, …)` stored by `add_rule` -/
+def addRuleStores : List (String × String) := {_lean_list(kws, lambda kv: f"({_lean_str(kv[0])}, {_lean_str(kv[1])})")}
+/-- request handler `add_rule`: parameter ↦ (index into the request, sentinel that means None, how the value is wrapped) -/
+def requestLayout : List (String × Nat × String × String) := {_lean_list(layout, lambda x: f"({_lean_str(x[0])}, {x[1]}, {_lean_str(x[2])}, {_lean_str(x[3])})")}
+"""
+
+
+def _actions_lean() -> str:
+    tree = parse(ACTIONS)
+    out = []
+    for cname in ("RouterACLAddRuleAction", "FirewallACLAddRuleAction", "RouterACLRemoveRuleAction", "FirewallACLRemoveRuleAction"):
+        c = class_def(tree, cname)
+        fr = find_method(c, "form_request")
+        b = _body(fr)
+        _need(len(b) == 1 and isinstance(b[0], ast.Return) and isinstance(b[0].value, ast.List), f"{cname}.form_request returns one list literal")
+        elts = []
+        for e in b[0].value.elts:
+            if isinstance(e, ast.Constant) and isinstance(e.value, str):
+                elts.append("'" + e.value + "'")
+            else:
+                s = _u(e)
+                if s.startswith("str(") and s.endswith(")"):
+                    s = s[4:-1]
+                _need(s.startswith("config."), f"{cname}: element {s}")
+                elts.append(s[len("config."):])
+        out.append((cname, elts))
+    return ("/-- `form_request` of the four ACL actions: literals quoted, `config.<field>` (through `str()` or not) by field name -/\n"
+            "def actionRequests : List (String × List String) := "
+            + _lean_list(out, lambda x: f"({_lean_str(x[0])}, {_lean_list(x[1], _lean_str)})") + "\n")
+
+
+def _from_config_blocks() -> str:
+    """Every `<obj>.<list>.add_rule(kw=…)` call inside a `for r_num, r_cfg in <mapping>.items()` loop of the two loaders."""
+    blocks = []
+    for rel, cls, fn_name in ((ROUTER, "Router", "from_config"), (FIREWALL, "Firewall", "from_config")):
+        fn = find_method(class_def(parse(rel), cls), fn_name)
+        for loop in [n for n in ast.walk(fn) if isinstance(n, ast.For)]:
+            calls = [n for n in ast.walk(loop) if isinstance(n, ast.Call) and isinstance(n.func, ast.Attribute) and n.func.attr == "add_rule"]
+            if not calls:
+                continue
+            _need(len(calls) == 1 and not calls[0].args, "one keyword add_rule call per loader loop")
+            _need(_u(loop.target) == "(r_num, r_cfg)", "loop target (r_num, r_cfg)")
+            kws = []
+            for k in calls[0].keywords:
+                s = _u(k.value)
+                # None if not (p := r_cfg.get('K')) else TABLE[p]   |   r_cfg.get('K')   |   ACLAction[r_cfg['K']]   |   r_num
+                m = re.fullmatch(r"None if not \(p := r_cfg\.get\('(\w+)'\)\) else (\w+)\[p\]", s)
+                if m:
+                    kws.append((k.arg, [m.group(1)], m.group(2)))
+                    continue
+                m = re.fullmatch(r"r_cfg\.get\('(\w+)'\)", s)
+                if m:
+                    kws.append((k.arg, [m.group(1)], "-"))
+                    continue
+                m = re.fullmatch(r"r_cfg\.get\('(\w+)', r_cfg\.get\('(\w+)'\)\)", s)  # a second, alternative spelling of the key
+                if m:
+                    kws.append((k.arg, [m.group(1), m.group(2)], "-"))
+                    continue
+                m = re.fullmatch(r"ACLAction\[r_cfg\['(\w+)'\]\]", s)
+                if m:
+                    kws.append((k.arg, [m.group(1)], "ACLAction"))
+                    continue
+                _need(s == "r_num", f"loader keyword {k.arg}={s}")
+                kws.append((k.arg, [], "<mapping key>"))
+            src = _u(loop.iter)
+            blocks.append((cls, _u(calls[0].func.value), src, kws))
+    return ("/-- the loaders' rule loops: (class, list object the rule is added to, mapping iterated, [(parameter, config keys read "
+            "— first one wins —, lookup table)]) -/\n"
+            "def loaderBlocks : List (String × String × String × List (String × List String × String)) := "
+            + _lean_list(blocks, lambda b: f"({_lean_str(b[0])}, {_lean_str(b[1])}, {_lean_str(b[2])}, "
+                         + _lean_list(b[3], lambda k: f"({_lean_str(k[0])}, {_lean_list(k[1], _lean_str)}, {_lean_str(k[2])})") + ")") + "\n")
+
+
+def _yaml_acl_keys(text: str) -> set:
+    """keys written under an `acl:` mapping of a YAML example (line based: the examples contain `...` placeholders)"""
+    keys, lines, i = set(), text.splitlines(), 0
+    while i < len(lines):
+        m = re.match(r"^(\s*)acl:\s*$", lines[i])
+        if not m:
+            i += 1
+            continue
+        ind, j = len(m.group(1)), i + 1
+        while j < len(lines) and (not lines[j].strip() or len(lines[j]) - len(lines[j].lstrip()) > ind):
+            mm = re.match(r"^\s*([A-Za-z_]\w*):", lines[j])
+            if mm:
+                keys.add(mm.group(1))
+            j += 1
+        i = j
+    return keys
+
+
+def _documented_keys(fw_lists) -> str:
+    """Rule keys the documentation tells users to write: the `acl` bullets of `Router.from_config`'s docstring and every key
+    under an `acl:` mapping in the configuration pages (docs/source/configuration/simulation/nodes/*.rst)."""
+    rt = class_def(parse(ROUTER), "Router")
+    doc = ast.get_docstring(find_method(rt, "from_config")) or ""
+    dkeys, inside, ind0 = [], False, 0
+    for line in doc.splitlines():
+        m = re.match(r"^(\s*)- (\w+) \(", line)
+        if m and m.group(2) == "acl":
+            inside, ind0 = True, len(m.group(1))
+            continue
+        if inside and m:
+            if len(m.group(1)) <= ind0:
+                inside = False
+            else:
+                dkeys.append(m.group(2))
+    _need(dkeys, "Router.from_config docstring lists the acl rule keys")
+    docs = SRC.parents[1] / "docs" / "source" / "configuration" / "simulation" / "nodes"
+    ykeys = set()
+    files = sorted(docs.glob("*.rst"))
+    _need(files, f"no configuration pages under {docs}")
+    for f in files:
+        ykeys |= _yaml_acl_keys(f.read_text())
+    ykeys -= {name for name, _ in fw_lists}
+    allk = sorted(set(dkeys) | ykeys)
+    return ("/-- rule keys the documentation tells users to write under `acl:` (from_config docstring + configuration pages) -/\n"
+            f"def documentedRuleKeys : List String := {_lean_list(allk, _lean_str)}\n")
+
+
+def _device_defaults() -> str:
+    fw = class_def(parse(FIREWALL), "Firewall")
+    rows = []
+    for st in fw.body:
+        if isinstance(st, ast.AnnAssign) and _u(st.annotation) == "AccessControlList":
+            v = st.value
+            _need(isinstance(v, ast.Call) and _u(v.func) == "Field" and len(v.keywords) == 1 and v.keywords[0].arg == "default_factory"
+                  and isinstance(v.keywords[0].value, ast.Lambda), f"{_u(st.target)}: Field(default_factory=lambda: …)")
+            c = v.keywords[0].value.body
+            _need(isinstance(c, ast.Call) and _u(c.func) == "AccessControlList" and not c.args, "AccessControlList(…)")
+            kw = {k.arg: _u(k.value) for k in c.keywords}
+            _need(set(kw) == {"name", "implicit_action"} and kw["implicit_action"] in ("ACLAction.DENY", "ACLAction.PERMIT"),
+                  f"{_u(st.target)}: keywords {sorted(kw)}")
+            rows.append((_u(st.target), "deny" if kw["implicit_action"].endswith("DENY") else "permit"))
+    rt = class_def(parse(ROUTER), "Router")
+    init = find_method(rt, "__init__")
+    acl_calls = [n for n in ast.walk(init) if isinstance(n, ast.Call) and _u(n.func) == "AccessControlList"]
+    _need(len(acl_calls) == 1, "Router.__init__ builds one AccessControlList")
+    kw = {k.arg: _u(k.value) for k in acl_calls[0].keywords}
+    _need(kw.get("implicit_action") in ("ACLAction.DENY", "ACLAction.PERMIT") and "max_acl_rules" not in kw, "router list implicit action")
+    rimp = "deny" if kw["implicit_action"].endswith("DENY") else "permit"
+    _need(any(_u(s) == "self._set_default_acl()" for s in init.body), "Router.__init__ calls _set_default_acl()")
+    sd = find_method(rt, "_set_default_acl")
+    ports = _port_lookup()
+    rules = []
+    for st in _body(sd):
+        _need(isinstance(st, ast.Expr) and isinstance(st.value, ast.Call) and _u(st.value.func) == "self.acl.add_rule" and not st.value.args,
+              "_set_default_acl: only self.acl.add_rule(…) calls")
+        f = {"action": None, "protocol": "none", "src_port": "none", "dst_port": "none", "position": None}
+        for k in st.value.keywords:
+            s = _u(k.value)
+            if k.arg == "action":
+                f["action"] = {"ACLAction.PERMIT": ".permit", "ACLAction.DENY": ".deny"}[s]
+            elif k.arg == "position":
+                f["position"] = int(s)
+            elif k.arg == "protocol":
+                f["protocol"] = "(some ." + {"PROTOCOL_LOOKUP['ICMP']": "icmp", "PROTOCOL_LOOKUP['TCP']": "tcp", "PROTOCOL_LOOKUP['UDP']": "udp"}[s] + ")"
+            elif k.arg in ("src_port", "dst_port"):
+                _need(isinstance(k.value, ast.Subscript) and _u(k.value.value) == "PORT_LOOKUP" and isinstance(k.value.slice, ast.Constant),
+                      f"default rule port {s}")
+                f[k.arg] = f"(some {ports[k.value.slice.value]})"
+            else:
+                raise Shape(f"default rule keyword {k.arg}")
+        rules.append(f"({f['position']}, {{ action := {f['action']}, proto := {f['protocol']}, srcIp := none, srcWc := none, dstIp := none, "
+                     f"dstWc := none, srcPort := {f['src_port']}, dstPort := {f['dst_port']} }})")
+    return (f"/-- firewall.py: list field ↦ implicit action of its default factory -/\n"
+            f"def firewallLists : List (String × Action) := {_lean_list(rows, lambda r: f'({_lean_str(r[0])}, .{r[1]})')}\n"
+            f"def routerImplicit : Action := .{rimp}\n"
+            f"/-- `Router._set_default_acl` -/\n"
+            f"def routerDefaultRules : List (Nat × Rule) := {_lean_list(rules)}\n")
+
+
+def _port_lookup() -> dict:
+    tree = parse("utils/validation/port.py")
+    for n in ast.walk(tree):
+        if isinstance(n, ast.AnnAssign) and _u(n.target) == "PORT_LOOKUP":
+            return {k.arg: ast.literal_eval(k.value) for k in n.value.keywords}
+    raise Shape("PORT_LOOKUP")
+
+
+def _frame_lean() -> str:
+    """`Router.subject_to_acl`, `Frame.is_arp`, and the refusals of `Frame.__init__`, conjunct by conjunct."""
+    rt = class_def(parse(ROUTER), "Router")
+    sta = _body(find_method(rt, "subject_to_acl"))
+    _need(len(sta) == 2 and isinstance(sta[0], ast.If) and not sta[0].orelse and _u(sta[0].body[0]) == "return False" and _u(sta[1]) == "return True",
+          "subject_to_acl: if <conj>: return False; return True")
+    t = sta[0].test
+    conj = t.values if isinstance(t, ast.BoolOp) and isinstance(t.op, ast.And) else [t]
+    fr = class_def(parse(FRAME), "Frame")
+    is_arp = None
+    for n in fr.body:
+        if isinstance(n, ast.FunctionDef) and n.name == "is_arp":
+            b = _body(n)
+            _need(len(b) == 1 and _u(b[0]) == "return self.udp.dst_port == PORT_LOOKUP['ARP']", "Frame.is_arp")
+            is_arp = True
+    _need(is_arp, "Frame.is_arp")
+    arp = _port_lookup()["ARP"]
+    atoms = {"frame.ip.protocol == 'udp'": "(f.proto == Proto.udp)", "frame.is_arp": "(f.udp.map (·.2) == some arpPort)",
+             "isinstance(frame.payload, ARPPacket)": "f.arpPayload"}
+    parts = []
+    for c in conj:
+        _need(_u(c) in atoms, f"subject_to_acl conjunct {_u(c)!r}")
+        parts.append(atoms[_u(c)])
+    init = find_method(fr, "__init__")
+    watoms = {"kwargs.get('tcp')": "f.tcp.isSome", "kwargs.get('udp')": "f.udp.isSome", "kwargs.get('icmp')": "f.icmp",
+              "not kwargs.get('tcp')": "(!f.tcp.isSome)", "not kwargs.get('udp')": "(!f.udp.isSome)", "not kwargs.get('icmp')": "(!f.icmp)",
+              "kwargs['ip'].protocol == PROTOCOL_LOOKUP['TCP']": "(f.proto == Proto.tcp)",
+              "kwargs['ip'].protocol == PROTOCOL_LOOKUP['UDP']": "(f.proto == Proto.udp)",
+              "kwargs['ip'].protocol == PROTOCOL_LOOKUP['ICMP']": "(f.proto == Proto.icmp)"}
+    refusals = []
+    for st in _body(init):
+        if isinstance(st, ast.If):
+            _need(not st.orelse and isinstance(st.body[-1], ast.Raise), "Frame.__init__: every `if` ends in raise")
+            cs = st.test.values if isinstance(st.test, ast.BoolOp) and isinstance(st.test.op, ast.And) else [st.test]
+            for c in cs:
+                _need(_u(c) in watoms, f"Frame.__init__ test {_u(c)!r}")
+            refusals.append("(" + " && ".join(watoms[_u(c)] for c in cs) + ")")
+        else:
+            _need(_u(st) in ("kwargs['primaite'] = PrimaiteHeader()", "super().__init__(**kwargs)"), f"Frame.__init__ statement {_u(st)[:50]!r}")
+    return f"""def arpPort : Nat := {arp}
+/-- `Router.subject_to_acl` -/
+def subjectToAcl (f : Frame) : Bool := !({' && '.join(parts)})
+/-- `Frame.__init__` accepts a frame iff none of its refusals fires -/
+def frameAccepted (f : Frame) : Bool := !({' || '.join(refusals)})
+"""
+
+
+def emit_state() -> str:
+    acl = class_def(parse(ROUTER), "AccessControlList")
+    return ("import PrimaiteModel.Model.AclObj\nimport PrimaiteModel.Gen.AclMatch\nnamespace Primaite.Gen.AclState\nopen Primaite.Acl\n"
+            + _is_permitted_lean(acl) + _ctor_lean(acl) + _readers_lean(acl) + _add_rule_plumbing(acl) + _actions_lean()
+            + _from_config_blocks() + _device_defaults() + _documented_keys(_fw_list_rows()) + _frame_lean()
+            + "end Primaite.Gen.AclState\n")
+
+
+def _fw_list_rows():
+    fw = class_def(parse(FIREWALL), "Firewall")
+    return [(_u(st.target), None) for st in fw.body if isinstance(st, ast.AnnAssign) and _u(st.annotation) == "AccessControlList"]
+
